@@ -1118,7 +1118,7 @@ impl Check for C43 {
             "reference = the row-at-a-time INSERT twin (its own defects, e.g. the row-id counter restarting on open, show up as differences and are listed as findings with that root cause)",
             "partial failure of whole-batch APIs is unspecified: a batch with accepted and rejected rows only has to fail and to leave a prefix; bulk_insert documents that the caller guarantees the constraints, batches violating them are not judged",
         ];
-        s.cap_quick_s = 90;
+        s.cap_quick_s = 100;
         s.cap_thorough_s = 1500;
         vec![s]
     }
